@@ -94,6 +94,13 @@ class Silence(object):
             rounds += 1
             for n in own_nodes(self.func):
                 if isinstance(n, ast.Assign):
+                    if self._is_container_expr(n.value) and not isinstance(n.value, ast.Name):
+                        # rest = args[1:] : a slice of the tuple of handles is again a tuple of handles, not a handle
+                        for t in n.targets:
+                            if isinstance(t, ast.Name) and t.id not in self.containers and t.id not in self.handles:
+                                self.containers.add(t.id) if isinstance(self.containers, set) else self.containers.append(t.id)
+                                changed = True
+                        continue
                     hv = self.is_handle(n.value)
                     for t in n.targets:
                         if isinstance(t, ast.Name) and hv and t.id not in self.handles and t.id not in self.exempt:
